@@ -295,6 +295,17 @@ def report_failure(ctx, fz, f, found):
         mdata, mbody = data, ops[1:]
     out = ctx.batch([("final", script_text(mdata, mbody))], op_timeout=OP_TIMEOUT, workers=1, retry_timeouts=False).get("final", [])
     v2, _ = c03fuzz.judge(["store"] + mbody, out, fz.known)
+    if v2 is None and "TIMEOUT" in verdict[1]:
+        # A time-out that does not come back when the ORIGINAL script runs alone with three times the budget was the machine, not the library:
+        # a hang is deterministic.  (Memory errors are reported even when they do not reproduce in isolation.)
+        o3 = ctx.batch([("orig", script_text(data, ops[1:]))], op_timeout=3 * OP_TIMEOUT, workers=1, retry_timeouts=False).get("orig", [])
+        v3, _ = c03fuzz.judge(["store"] + ops[1:], o3, fz.known)
+        if v3 is None:
+            st = ctx.notes.setdefault("timeouts_not_reproduced", {"count": 0, "examples": []})
+            st["count"] += 1
+            if len(st["examples"]) < 5:
+                st["examples"].append("%s (seed format %08x, mutation '%s', route %s)" % (name, seedf, kind, route))
+            return
     text = ("# C03: %s\n# seed format %08x (%d ch), mutation '%s', route %s; minimised from %d to %d bytes, %d -> %d operations\n"
             "# symptom after minimisation: %s\n# transcript of the minimised script:\n%s\n--- script\n%s"
             % (verdict[1], seedf, seedch, kind, route, len(data), len(mdata), len(ops) - 1, len(mbody),
